@@ -76,3 +76,22 @@ Example lx_user_raise :
   snd r = LRaise (LUser 12) /\ status (c_st (l_core (fst r))) = U3 /\
   map (fun ic => (status (c_st (snd ic)), iters (c_st (snd ic)))) (l_subs (fst r)) = [(U3, [-1; 1; -1])].
 Proof. vm_compute. repeat split. Qed.
+
+(* ---- C08_linker_errors_only_handed_down: scripted submodels and hooks do not look at errors= / catch_first_error ---- *)
+Example lx_errors_hypotheses_satisfiable :
+  (forall id t em cf em' cf' k v, ls_sev 3 lx_ss id t em cf k v = ls_sev 3 lx_ss id t em' cf' k v) /\
+  (forall t ids em cf em' cf' k jv, ls_hpre 3 lx_hs t ids em cf k jv = ls_hpre 3 lx_hs t ids em' cf' k jv) /\
+  (forall t ids em cf em' cf' k jv, ls_hafter 3 lx_hs t ids em cf k jv = ls_hafter 3 lx_hs t ids em' cf' k jv) /\
+  fst (lx_run None (mkOpts 0 6 tolf 0 true ESkip false)) = fst (lx_run None (lx_opts 0 6)).
+Proof. repeat split. Qed.
+
+(* ---- C08_linker_solve_failure_containment: period 0 solves, period 1 runs out of iterations under failures='raise' ---- *)
+Example lx_failure_containment_hypotheses_satisfiable :
+  let o := lx_opts 0 2 in
+  let r0 := f_linker_solve lx_ss lx_hs None o [0] lx_state in
+  let r1 := f_linker_solve_t lx_ss lx_hs None o 1 (fst r0) in
+  snd r0 = inr [true] /\ snd r1 = LRaise (LExn NonConvergenceError) /\
+  f_linker_solve lx_ss lx_hs None o [0; 1; 2] lx_state = (fst r1, inl (LExn NonConvergenceError)) /\
+  status (c_st (l_core (fst r1))) = [Solved; Failed; Unsolved] /\
+  map (fun ic => status (c_st (snd ic))) (l_subs (fst r1)) = [[Solved; Failed; Unsolved]; [Solved; Failed; Unsolved]].
+Proof. vm_compute. repeat split. Qed.
